@@ -21,7 +21,8 @@ func envOr(k, d string) string {
 }
 
 func main() {
-	debug.SetGCPercent(800) // the loaded SSA program is a large, static heap
+	debug.SetGCPercent(400) // the loaded SSA program is a large, static heap
+	debug.SetMemoryLimit(28 << 30)
 	if len(os.Args) < 2 {
 		fmt.Fprintln(os.Stderr, "usage: gosym job|check|replay ...")
 		os.Exit(2)
